@@ -40,7 +40,7 @@ ASSUMPTIONS = [
     "worker counts 1-4 (and 16 for the over-subscribed cases) stand for 1..16; completion orders bounded by the deviation bound",
 ]
 BOUNDS = {"quick": "n in 1..5 x k in 1..4, deviations <= 2; (17,16) and (33,16) deviations <= 1; faults at every position for n<=4,k in {2,3}",
-          "thorough": "n in 1..7 x k in 1..4, deviations <= 3; (17,16), (33,16), (9,2) deviations <= 2"}
+          "thorough": "n in 1..7 x k in 1..4 and (9,2), deviations <= 3; (9,3), (8,4) deviations <= 2; (12,8), (17,16), (33,16) one deviation"}
 REQUIRED_BUCKETS = {t: ["schedules:replayed", "schedules:reordered-completion", "faults:raised-in-worker", "faults:timeout", "content:records", "content:catalogue-records", "content:origin-spanning-gene-records", "histories:checked", "preprocess:compared"]
                     for t in ("quick", "thorough")}
 N_MAX = 40
@@ -470,7 +470,9 @@ def shards(tier):
         grid = [(n, k, 2) for n in range(1, 6) for k in range(1, 5)] + [(17, 16, 1), (33, 16, 1)]
         fault_grid = [(n, k) for n in (1, 2, 3, 4) for k in (2, 3)]
     else:
-        grid = [(n, k, 3) for n in range(1, 8) for k in range(1, 5)] + [(17, 16, 2), (33, 16, 2), (9, 2, 2)]
+        # (17,16) and (33,16) with two deviations would be 8516 and 68156 schedules of a 16-worker pool: out of reach, so the
+        # second deviation is explored on pools of up to 8 workers
+        grid = [(n, k, 3) for n in range(1, 8) for k in range(1, 5)] + [(17, 16, 1), (33, 16, 1), (9, 2, 3), (9, 3, 2), (8, 4, 2), (12, 8, 1)]
         fault_grid = [(n, k) for n in (1, 2, 3, 4, 5, 6) for k in (2, 3, 4)]
     for n, k, bound in grid:
         out.append(["schedules", n, k, bound])
